@@ -206,6 +206,10 @@ func (a *Air) Process(op *types.Operation) (*types.Operation, error) {
 	func() {
 		defer func() {
 			if rec := recover(); rec != nil {
+				if cs, ok := rec.(CrashSentinel); ok {
+					err = &MachineKilled{Point: cs.Point}
+					return
+				}
 				err = &MachinePanic{V: rec, Stack: string(debug.Stack())}
 			}
 		}()
@@ -226,6 +230,19 @@ func (a *Air) Process(op *types.Operation) (*types.Operation, error) {
 		return nil, fmt.Errorf("result file does not parse: %w", err)
 	}
 	return &res, nil
+}
+
+// MachineKilled reports that the harness killed the machine process at an injected crash point.
+type MachineKilled struct{ Point string }
+
+func (m *MachineKilled) Error() string { return "airgapped machine killed at " + m.Point }
+
+// DBPath returns the machine's LevelDB directory (for write hooks).
+func (a *Air) DBPath() string { return a.dbPath() }
+
+// ResultFile returns the path of the result file of an operation.
+func (a *Air) ResultFile(op *types.Operation) string {
+	return filepath.Join(a.Results, op.Filename()+"_result.json")
 }
 
 // MachinePanic reports that Machine.ProcessOperation panicked (the real process would have died).
